@@ -90,6 +90,13 @@ CLAIMED.update({
    "SSA symbolic execution + SMT, inductive single step, native replay"),
 })
 
+CLAIMED.update({
+ "C19": ("DESIGN.md 5/C19",
+   "electricpb.Model: one arbitrary operation (CreateMode, AddMode, UpdateMode with mask nil/normal/title, DeleteMode with/without allow-missing, SetActiveMode, ChangeActiveMode, ChangeToNormalMode) with symbolic arguments from an arbitrary invariant-satisfying state (0..3 modes, thorough 4; arbitrary Normal flags and active mode): invariants re-established, documented outcomes (NotFound, allow-missing, start-time stamping with the model clock, clear selects normal). Induction gives every sequence; pairs of conflicting operations under every interleaving for the concurrent clause.",
+   "Trusted: symgo, protobuf model, real resource layer, z3. Mode ids are fixed distinct ordinals (they matter only up to equality/order); the ElectricApi/MemorySettingsApi server wrappers are thin and not separately encoded.",
+   "SSA symbolic execution + SMT, inductive single step, symbolic scheduler, native replay"),
+})
+
 NOT_YET = {}
 
 NA = {
